@@ -231,7 +231,23 @@ impl Check for C03 {
             if let Some(ps) = r["problems"].as_array() {
                 for p in ps {
                     let p = p.as_str().unwrap_or("");
-                    let sig = classify_problem(p);
+                    let mut sig = classify_problem(p);
+                    // a builtin instance (typed array, Date, Map, Set) that an object-typed member of an intersection
+                    // accepts is projected to a plain object by that member, and the merge of the members' results
+                    // loses the instance ({"a-b": {}} & {"a-b": Uint8Array}): the result no longer validates
+                    if sig == "c03_data_rejected" {
+                        fn has_builtin(v: &JsVal) -> bool {
+                            match v {
+                                JsVal::Date(_) | JsVal::Map(_) | JsVal::Set(_) | JsVal::TypedArr(_, _) => true,
+                                JsVal::Arr(xs) => xs.iter().any(has_builtin),
+                                JsVal::Obj(kv, _) => kv.iter().any(|(_, x)| has_builtin(x)),
+                                _ => false,
+                            }
+                        }
+                        if has_builtin(q.v) && crate::c02::reaches(q.env, q.d, &mut |n| matches!(n, D::Inter(_))) {
+                            sig = "c03_data_rejected:builtin_instance_under_object_member_of_intersection".to_string();
+                        }
+                    }
                     out.mismatch(ctx, &sig, p.to_string(), json!({"validator": q.desc, "type": q.d, "value": q.v, "value_tagged": q.v.to_tagged(), "observed": r["obs"], "problems": ps}));
                 }
             }
